@@ -212,8 +212,12 @@ def main() -> int:
         # shape no extractor visits or a reachable crash site; a tree on which it is true and which the implementation
         # nevertheless leaves with an internal error contradicts the theorem's transfer to the code
         dist_ef["trees"] += 1
-        if x.get("escape_free") == "ef":
+        if x.get("escape_free", "").startswith("ef"):
             dist_ef["escape_free"] += 1
+            dist_ef["escape_free_and_nw_inner"] = dist_ef.get("escape_free_and_nw_inner", 0) + x["escape_free"].endswith("+nw")
+            if x["escape_free"].endswith("+nw") and (x["impl"] == "ERR:ValueError" or x["model"].startswith("ERR:ValueError")):
+                disagreements.append({"suite": "T2-escape-free", "dialect": x["rec"]["dialect"], "sql": x["stmt"], "impl": x["impl"][:200],
+                                      "model": x["model"][:200], "broken_transfer": "c10_total_on_all_trees_strict: escape_free and nw_inner hold of this parse tree, yet ValueError came out"})
             if x["impl"].startswith(INTERNAL) or x["model"].startswith(("ERR:IndexError", "ERR:AttributeError", "ERR:KeyError")):
                 disagreements.append({"suite": "T2-escape-free", "dialect": x["rec"]["dialect"], "sql": x["stmt"], "impl": x["impl"][:200],
                                       "model": x["model"][:200], "broken_transfer": "c10_total_on_all_trees_partial: escape_free holds of this parse tree, yet an internal error came out"})
